@@ -226,6 +226,11 @@ SameDigestCache(x, y) == x.ok /\ y.ok => x.cache = y.cache
 
 \* the accelerated ignore cache may lack entries of re-used sub-trees (they are
 \* recomputed on demand) but never disagrees with a cold one
+\* restricted to the keys a cold scan produces, the returned ignore cache has the cold scan's values (Docker-style
+\* ignores put richer values there: Ignored/Nominal with traversal continuation for phantom directories, Unignored
+\* entries under a mask - they must survive baseline re-use and the early return unchanged)
+ICacheMatches(x, y) == x.ok /\ y.ok =>
+   \A k \in DOMAIN x.icache \cap DOMAIN y.icache : x.icache[k] = y.icache[k]
 ICacheWithin(x, y) == x.ok /\ y.ok =>
    \A k \in DOMAIN x.icache : k[1] = <<>> \/ (k \in DOMAIN y.icache /\ y.icache[k] = x.icache[k])
 ====
